@@ -89,6 +89,7 @@ type frame struct {
 	panic            interface{}
 	phitemps         []value
 	callInstr        ssa.Instruction
+	cur              ssa.Instruction
 	skipPhis         bool
 }
 
@@ -153,9 +154,22 @@ func (m *Machine) ensureInit(pkg *ssa.Package) {
 		if m.trace {
 			fmt.Fprintf(os.Stderr, "skip init of %s\n", pkg.Pkg.Path())
 		}
+		if pkg.Pkg.Path() == "os" {
+			// the sentinel errors are aliases of io/fs's
+			if fsp := m.prog.ImportedPackage("io/fs"); fsp != nil {
+				for _, n := range []string{"ErrInvalid", "ErrPermission", "ErrExist", "ErrNotExist", "ErrClosed"} {
+					og, _ := pkg.Members[n].(*ssa.Global)
+					fg, _ := fsp.Members[n].(*ssa.Global)
+					if og != nil && fg != nil {
+						*m.globals[og] = *m.globalAddr(fg)
+					}
+				}
+			}
+		}
 		return
 	}
 	m.inInit++
+	defer m.postInit(pkg)
 	defer func() {
 		m.inInit--
 		if r := recover(); r != nil {
@@ -171,12 +185,55 @@ func (m *Machine) ensureInit(pkg *ssa.Package) {
 	m.callSSA(nil, token.NoPos, init, nil, nil)
 }
 
+// postInit installs models for package-level function variables that the
+// (black-holed) initialiser would have set.
+func (m *Machine) postInit(pkg *ssa.Package) {
+	if pkg.Pkg.Path() != "github.com/icon-project/goloop/common/log" {
+		return
+	}
+	for name, mem := range pkg.Members {
+		g, ok := mem.(*ssa.Global)
+		if !ok {
+			continue
+		}
+		if _, ok := deref(g.Type()).Underlying().(*types.Signature); !ok {
+			continue
+		}
+		p := m.globals[g]
+		if p == nil {
+			continue
+		}
+		if f, ok := (*p).(*ssa.Function); !ok || f != nil {
+			continue // already set by the initialiser
+		}
+		nm := name
+		switch {
+		case nm == "Must":
+			*p = &intrinsicFn{name: "log.Must", f: func(m *Machine, fr *frame, args []value) value {
+				if it, ok := args[0].(iface); ok && it.t != nil {
+					panic(targetPanic{m.errString("log.Must: error")})
+				}
+				return nil
+			}}
+		case strings.HasPrefix(nm, "Panic") || strings.HasPrefix(nm, "Fatal"):
+			*p = &intrinsicFn{name: "log." + nm, f: func(m *Machine, fr *frame, args []value) value {
+				panic(targetPanic{m.errString("log." + nm + " called")})
+			}}
+		default:
+			*p = &intrinsicFn{name: "log." + nm, f: func(m *Machine, fr *frame, args []value) value { return nil }}
+		}
+	}
+}
+
 // defaultSkipInit: run-time/system packages whose initializers talk to the
 // OS or the Go runtime and are never the subject of a property.
 func defaultSkipInit(path string) bool {
 	switch path {
 	case "runtime", "syscall", "os", "unsafe", "reflect", "internal/reflectlite", "net", "os/signal", "os/exec", "os/user", "plugin", "testing":
 		return true
+	}
+	if path == "internal/oserror" {
+		return false
 	}
 	for _, p := range []string{"runtime/", "internal/", "net/", "golang.org/x/sys/", "crypto/internal/", "vendor/"} {
 		if strings.HasPrefix(path, p) {
@@ -238,8 +295,19 @@ const (
 	kJump
 )
 
+var itrace = os.Getenv("GOSYM_ITRACE") != ""
+
 func (m *Machine) visitInstr(fr *frame, instr ssa.Instruction) continuation {
 	m.step(fr, instr)
+	if itrace {
+		defer func() {
+			if v, ok := instr.(ssa.Value); ok {
+				fmt.Fprintf(os.Stderr, "    [%s] %s = %s  => %.200s\n", fr.fn.Name(), v.Name(), instr, fmt.Sprintf("%v", fr.env[v]))
+			} else {
+				fmt.Fprintf(os.Stderr, "    [%s] %s\n", fr.fn.Name(), instr)
+			}
+		}()
+	}
 	switch instr := instr.(type) {
 	case *ssa.DebugRef:
 	case *ssa.UnOp:
@@ -628,6 +696,9 @@ func (m *Machine) runFrame(fr *frame) {
 				panic(pathAbort{"internal", fmt.Sprintf("%v (in %s)", r, fr.fn)})
 			}
 		}
+		if m.trace && !fr.panicking && fr.cur != nil {
+			fmt.Fprintf(os.Stderr, "PANIC %v in %s at %s: %v\n", r, fr.fn, m.prog.Fset.Position(fr.cur.Pos()), fr.cur)
+		}
 		fr.panicking = true
 		fr.panic = r
 		fr.runDefers()
@@ -640,6 +711,7 @@ func (m *Machine) runFrame(fr *frame) {
 	for {
 		nonPhis := m.executePhis(fr)
 		for _, instr := range nonPhis {
+			fr.cur = instr
 			if m.visitInstr(fr, instr) == kReturn {
 				return
 			}
